@@ -380,6 +380,32 @@ theorem ResEraseEq.weaken {r r' : OpRes} (h : ResEraseEq true r r') : ResEraseEq
       obtain ⟨h1, h2, h3, h4, h5, _⟩ := h
       exact ⟨h1, h2, h3, h4, h5, fun hh => by cases hh⟩
 
+theorem ResEraseEq.symm {hp : Bool} {r r' : OpRes} (h : ResEraseEq hp r r') : ResEraseEq hp r' r := by
+  cases r with
+  | error e => cases r' with
+    | error e' => exact Eq.symm h
+    | ok x => exact h
+  | ok x => cases r' with
+    | error e' => exact h
+    | ok x' =>
+      obtain ⟨k, v, c⟩ := x; obtain ⟨k', v', c'⟩ := x'
+      obtain ⟨h1, h2, h3, h4, h5, h6⟩ := h
+      exact ⟨h1.symm, h2.symm, h3.symm, h4.symm, h5.symm, fun hh => (h6 hh).symm⟩
+
+theorem ResEraseEq.strengthen {r r' : OpRes} (h : ResEraseEq false r r')
+    (hh : ∀ x x', r = .ok x → r' = .ok x' → x.2.2.heap = x'.2.2.heap) : ResEraseEq true r r' := by
+  cases r with
+  | error e => cases r' with
+    | error e' => exact h
+    | ok x => exact h
+  | ok x => cases r' with
+    | error e' => exact h
+    | ok x' =>
+      have := hh x x' rfl rfl
+      obtain ⟨k, v, c⟩ := x; obtain ⟨k', v', c'⟩ := x'
+      obtain ⟨h1, h2, h3, h4, h5, _⟩ := h
+      exact ⟨h1, h2, h3, h4, h5, fun _ => this⟩
+
 theorem OpRepr.weaken {f : OpFn} (h : OpRepr true f) : OpRepr false f :=
   fun flags m a a' c hw hw' he => (h flags m a a' c hw hw' he).weaken
 
